@@ -66,7 +66,7 @@ def shapeTags (g : Geom) : String :=
   | some ps =>
     let rings := ps.flatMap Poly.rings
     let cs := coordsIter g
-    " type=" ++ tagOf g ++ " n=" ++ toString cs.length ++
+    "type=" ++ tagOf g ++ " n=" ++ toString cs.length ++
     " holes=" ++ toString ((ps.map (fun p => p.ints.length)).sum) ++
     (if rings.any hasCollinearVertex then " collinear" else "") ++
     (if rings.any hasVertical then " vertical" else "") ++
